@@ -334,3 +334,9 @@ pub struct StoreMeta {
     /// The next free page number.
     pub bump: u32,
 }
+
+#[cfg(feature = "verif-hooks")]
+#[doc(hidden)]
+pub mod verif_hooks {
+    pub use super::free_list::verif_hooks as free_list;
+}
